@@ -1,7 +1,7 @@
 (* C07 Evaluation is total and recoverable: a value or a located error, never a crash.
    Part A: the evaluator's bookkeeping model (EvalState/Model.v); Part B: MiniStar (Core/Sem.v). *)
 From Coq Require Import ZArith List Bool String.
-From SV Require Import EvalState.Model EvalState.Proofs EvalState.Cases.
+From SV Require Import EvalState.Model EvalState.Proofs EvalState.Cases EvalState.Lines.
 From SV Require Import Core.Syntax Core.Values Core.Sem.
 Import ListNotations.
 
@@ -66,8 +66,32 @@ Theorem C07_list_pop_accepts_iff : forall l xs c args s, nth_error (lists s) l =
              (exists i, args = [VInt i] /\ (- Z.of_nat (List.length xs) <= i < Z.of_nat (List.length xs))%Z))).
 Proof. exact list_pop_accepts_iff. Qed.
 
-(* partial: the failure always carries a line; that the line is one of the program's statements needs a closure-store
-   invariant through eval/call/exec (full statement kept in EvalState/Proofs.v) *)
+(* FULL: a failing program fails at the line of a statement that occurs in its text, at any nesting depth (branches, loop
+   bodies, bodies of the functions it defines).  `occurs` and `lines_of_stmts` are defined in EvalState/Lines.v; the proof
+   carries the closure-store invariant (every closure body in the store consists of statements of the program) through
+   eval / call / exec by induction on the fuel. *)
+Theorem C07_error_has_line : forall fuel prog tr e l,
+  run_program fuel prog = (tr, Failed e l) ->
+  exists st, occurs st prog /\ l = Some (stmt_line st).
+Proof. exact run_program_error_has_line. Qed.
+
+Theorem C07_error_line_in_text : forall fuel prog tr e l,
+  run_program fuel prog = (tr, Failed e l) -> exists k, l = Some k /\ In k (lines_of_stmts prog).
+Proof. exact run_program_error_line_in. Qed.
+
+(* the two descriptions of "a line of the text" agree *)
+Theorem C07_lines_are_statement_lines : forall ss l,
+  In l (lines_of_stmts ss) <-> exists st, occurs st ss /\ stmt_line st = l.
+Proof.
+  intros ss l. split; [apply lines_of_stmts_occurs|]. intros (st & O & <-). apply occurs_lines_of_stmts. exact O.
+Qed.
+
+(* the invariant itself, for one statement run from any store whose closures all come from the text P *)
+Theorem C07_exec_error_line_in : forall (P : Z -> Prop) n en st s e l s',
+  clos_ok P s -> stmt_lines_in P st -> exec n en st s = Fail e l s' -> exists k, l = Some k /\ P k.
+Proof. exact exec_error_line_in. Qed.
+
+(* weaker earlier forms, kept *)
 Theorem C07_error_has_line_partial : forall fuel prog tr e l,
   run_program fuel prog = (tr, Failed e l) -> exists ln, l = Some ln.
 Proof. exact run_program_error_has_line_partial. Qed.
@@ -106,3 +130,9 @@ Proof. vm_compute. reflexivity. Qed.
 Example C07_ex_pop_locked : forall s, nth_error (lists s) 0 = Some ([VInt 1], 1%nat) ->
   ~ exists v s', call_method (VList 0) "pop" [] s = Ok v s'.
 Proof. intros s E H. apply (list_pop_accepts_iff 0 [VInt 1] 1 [] s E) in H. destruct H as [C _]. discriminate. Qed.
+
+(* MiniStar: a failure inside a function defined by the program is located at the line of the statement of the body *)
+Example C07_ex_failure_in_def_body :
+  run_program 20 [SDef 1 "f" [PNormal "x" None] [SReturn 2 (Some (EBin BFloorDiv (EInt 1) (EVar "x")))];
+                  SExpr 3 (ECall (EVar "f") [EInt 0] [] None None)] = ([], Failed ZeroDiv (Some 2%Z)).
+Proof. vm_compute. reflexivity. Qed.
